@@ -164,6 +164,20 @@ def s4(ck, an):
     v = [fb.sym.canon(r.value) for r in rets]
     ck.check(v == [fb.f.params[1]], "ARGFLOW", "S4.box-allocation-is-action", fb.f.short, fb.f.loc, "the continuous allocation is the action itself", f"BoxPortfolio._make_allocation returns {v}",
              construct="return action")
+    # the box the membership test compares against is the one configured: Box.__init__(self, low, high, (len(contracts),), float dtype)
+    fbx = an.fa("BoxPortfolio.__init__")
+    bx = [c for c in fbx.calls_named("__init__") if fbx.sym.canon(c.func) in ("Box.__init__", "gymnasium.spaces.Box.__init__", "spaces.Box.__init__", "super().__init__")]
+    okb = False
+    gotb = "?"
+    for c in bx:
+        a = [fbx.sym.canon(x) for x in c.args] + [f"{k.arg}={fbx.sym.canon(k.value)}" for k in c.keywords]
+        gotb = ", ".join(a)
+        pos = dict(zip(["self", "low", "high", "shape", "dtype"], a if fbx.sym.canon(c.func) != "super().__init__" else ["self"] + a))
+        for k_ in c.keywords:
+            pos[k_.arg] = fbx.sym.canon(k_.value)
+        okb = pos.get("low") == "low" and pos.get("high") == "high" and pos.get("shape") == specv(fbx, f"(len({fbx.f.params[1]}),)").key() and not fbx.syntactic_guards(c)
+    ck.check(len(bx) == 1 and okb, "ARGFLOW", "S3.box-configured-as-given", fbx.f.short, fbx.f.loc, "the space's bounds and shape are Box(low, high, (len(contracts),)): one entry per contract, the given bounds",
+             f"Box.__init__({gotb})", construct="Box.__init__(self, low, high, (len(contracts),), np.float64)")
     fd = an.fa("DiscretePortfolio._make_allocation")
     rets = returns_in(fd)
     v = [fd.sym.canon(r.value) for r in rets]
